@@ -3,12 +3,50 @@
 -/
 import GridVerif.Model.Proto
 import GridVerif.Model.Elem
+import GridVerif.Driver.C01
+import GridVerif.Driver.C02
+import GridVerif.Driver.C03
+import GridVerif.Driver.C04
+import GridVerif.Driver.C05
+import GridVerif.Driver.C06
+import GridVerif.Driver.C07
+import GridVerif.Driver.C08
+import GridVerif.Driver.C09
+import GridVerif.Driver.C10
+import GridVerif.Driver.C11
 import GridVerif.Driver.C12
+import GridVerif.Driver.C13
+import GridVerif.Driver.C14
+import GridVerif.Driver.C15
+import GridVerif.Driver.C16
+import GridVerif.Driver.C17
+import GridVerif.Driver.C18
+import GridVerif.Driver.C19
+import GridVerif.Driver.C20
 
 namespace GridVerif.Driver
 
 def handlers : List (String × (List String → Option String)) := [
-  ("C12.", C12.handle)
+  ("C01.", C01.handle),
+  ("C02.", C02.handle),
+  ("C03.", C03.handle),
+  ("C04.", C04.handle),
+  ("C05.", C05.handle),
+  ("C06.", C06.handle),
+  ("C07.", C07.handle),
+  ("C08.", C08.handle),
+  ("C09.", C09.handle),
+  ("C10.", C10.handle),
+  ("C11.", C11.handle),
+  ("C12.", C12.handle),
+  ("C13.", C13.handle),
+  ("C14.", C14.handle),
+  ("C15.", C15.handle),
+  ("C16.", C16.handle),
+  ("C17.", C17.handle),
+  ("C18.", C18.handle),
+  ("C19.", C19.handle),
+  ("C20.", C20.handle)
 ]
 
 def dispatch (toks : List String) : Option String :=
